@@ -111,8 +111,10 @@ def main(argv):
                         prop_fail.append({"input": inp, "kind": "a contract of the trusted strconv oracles failed (ParseFloat(FormatFloat f) != f)",
                                           "finding": None, "agrees_with_model": True})
                     continue
-                if kind == "val":
+                if kind in ("val", "scr"):
                     stats["val"] += 1
+                    if kind == "scr":
+                        stats["scr"] = stats.get("scr", 0) + 1
                     im, mo, sp = fields(impl), fields(model), fields(spec)
                     agrees = im.get("P") == mo.get("P") and im.get("R") == mo.get("R") and "BADTOK" not in model
                     if not agrees:
@@ -122,6 +124,10 @@ def main(argv):
                         agrees = False
                         corr_fail.append({"input": inp, "printed": text_of(im.get("P")), "implementation": "E=%s" % im.get("E"), "model": "EV=%s" % mo["EV"],
                                           "what": "EvalString of the printed text vs eval_json_like (read (print v)) (the model of the hash builder / literal evaluation)"})
+                    if im.get("W", "-") != "-" and mo.get("W", "-") != "-" and im.get("W") != mo.get("W"):
+                        agrees = False
+                        corr_fail.append({"input": inp, "printed": text_of(im.get("P")), "implementation": "W=%s (%r)" % (im.get("W"), text_of(im.get("W"))), "model": "W=%s" % mo.get("W"),
+                                          "what": "the file written by (owritef v path) vs save_text (print v, outer quotes stripped for strings, newline)"})
                     printed = text_of(im.get("P"))
                     fails = []
                     if sp.get("R", "-") != "-" and im.get("R") != sp["R"]:
@@ -131,6 +137,8 @@ def main(argv):
                             fails.append(("evaluated route: EvalString of (str v)", im.get("E"), sp["E"]))
                         if im.get("S", "-") != "-" and im.get("S") != sp["E"]:
                             fails.append(("evaluated route: (source file) of the printed text", im.get("S"), sp["E"]))
+                        if im.get("SV", "-") != "-" and im.get("SV") != sp["E"]:
+                            fails.append(("saved route: (owritef v path) then (source path)", im.get("SV"), sp["E"]))
                     for route, got, want in fails:
                         fid = None
                         rejected = got in ("ERROR",) or (got or "").startswith("E")
